@@ -166,9 +166,28 @@ def generate(rng, opts):
     if rng.random() < 0.2 and n_sp >= 2:
         # the last directory is reachable only through a .pth file in the first one
         n_listed = n_sp - 1
-        lines = ["# comment", "", f"<SP{n_sp - 1}>", "<ROOT>/does-not-exist"]
-        rng.shuffle(lines)
-        dirs[0]["extra.pth"] = "\n".join(lines) + "\n"
+        last = n_sp - 1
+        regular_tops = [t for t in tops if f"{t}/__init__.py" in dirs[last] and "extend_path" not in dirs[last][f"{t}/__init__.py"] and "declare_namespace" not in dirs[last][f"{t}/__init__.py"]]
+        flavor = rng.choice(["plain", "plain", "editables", "scikit", "setuptools"]) if regular_tops else "plain"
+        if flavor == "plain":
+            lines = ["# comment", "", f"<SP{last}>", "<ROOT>/does-not-exist"]
+            rng.shuffle(lines)
+            dirs[0]["extra.pth"] = "\n".join(lines) + "\n"
+        else:
+            # the editable-install shapes the finder recognises: a .pth `import` line naming a generated module
+            t = regular_tops[0]
+            if flavor == "editables":
+                mod = rng.choice(["__editables_proj", "_editable_impl_proj"])
+                body = f"from editables.redirector import RedirectingFinder as F\nF.install()\nF.map_module('{t}', '<SP{last}>/{t}/__init__.py')\n"
+            elif flavor == "scikit":
+                mod = "_proj_editable"
+                body = f"# generated\ninstall({{'{t}': '<SP{last}>/{t}/__init__.py'}}, {{}}, None, False, True)\n"
+            else:
+                mod = "__editable___proj_finder"
+                body = f"MAPPING: dict[str, str] = {{'{t}': '<SP{last}>/{t}'}}\nNAMESPACES = {{}}\n"
+            dirs[0][f"{mod}.py"] = body
+            dirs[0]["__editable__.proj.pth"] = f"import {mod}\n"
+        cfg["pth_flavor"] = flavor
     modes = [{"mode": "sorted"}, {"mode": "reversed"}] + [{"mode": "hash", "key": rng.randrange(1 << 30)} for _ in range(4)]
     schedules = [modes[0]] + rng.sample(modes[1:], rng.choice([2, 3, 4]))
     loads = []
@@ -179,6 +198,8 @@ def generate(rng, opts):
             loads.append({"schedule": sched, "form": form})
     cfg.pop("_memo", None)
     cfg["conflict_free"] = conflict_free
+    # now and then the no-exec oracle is itself checked against a real import in a pristine interpreter
+    cfg["crosscheck_oracle"] = rng.random() < 0.015
     return {
         "world": {"dirs": dirs, "n_listed": n_listed},
         "target": target,
@@ -302,6 +323,64 @@ def compare_with_cpython(ctx, w, tree, target, search_paths, inspection, dirs):
 # Execution
 
 
+_CROSSCHECK_SCRIPT = r"""
+import sys, json, importlib, pkgutil
+sps, target = json.loads(sys.argv[1]), sys.argv[2]
+sys.path[:0] = sps
+sys.dont_write_bytecode = True
+out = {}
+def walk(name):
+    try:
+        m = importlib.import_module(name)
+    except BaseException as e:
+        out[name] = ["ERR", type(e).__name__]
+        return
+    p = [str(x) for x in m.__path__] if hasattr(m, "__path__") else None
+    out[name] = [getattr(m, "__file__", None), p]
+    if p is not None:
+        for info in pkgutil.iter_modules(p, name + "."):
+            if info.name not in out:
+                walk(info.name)
+walk(target)
+print(json.dumps(out))
+"""
+
+
+def crosscheck_oracle(ctx, w, target, search_paths):
+    """Real `import` + pkgutil walk in `python -S -I`-like isolation vs. the no-exec oracle.  A disagreement is a
+    defect of the harness (HarnessError), never a violation of the property."""
+    import json
+    import subprocess
+    import sys
+
+    p = subprocess.run([sys.executable, "-S", "-c", _CROSSCHECK_SCRIPT, json.dumps(search_paths), target], capture_output=True, text=True, timeout=60, env={"PATH": os.environ.get("PATH", ""), "PYTHONDONTWRITEBYTECODE": "1"})
+    if p.returncode != 0:
+        raise core.HarnessError(f"oracle cross-check interpreter failed: {p.stderr[-400:]}")
+    real = json.loads(p.stdout.strip().splitlines()[-1])
+    imp = cpy.importable_tree(target, search_paths)
+    walk = cpy.walker_tree(target, search_paths)
+    for name, (file, path) in real.items():
+        found = imp.get(name)
+        if file == "ERR":
+            if found is not None and found.loader == "source" and "pkg_resources" not in open(found.origin).read():
+                raise core.HarnessError(f"oracle cross-check: real import of {name} failed ({path}) but the oracle finds {found.as_tuple()}")
+            continue
+        if found is None:
+            raise core.HarnessError(f"oracle cross-check: real import finds {name} at {file} but the oracle does not")
+        if name not in walk and name != target:
+            raise core.HarnessError(f"oracle cross-check: the real package walker yields {name} but the oracle's walker does not")
+        if found.origin != file and not (found.origin is None and file is None):
+            raise core.HarnessError(f"oracle cross-check: {name}: real import uses {file}, oracle says {found.origin}")
+        if path is not None and found.dirs is not None and sorted(path) != sorted(found.dirs):
+            raise core.HarnessError(f"oracle cross-check: {name}: real __path__ {path} != oracle {found.dirs}")
+    missing = [n for n in walk if n not in real and imp.get(n) is not None and imp[n].loader == "source"]
+    if missing and real.get(target, ["ERR"])[0] != "ERR":
+        parents_ok = [n for n in missing if real.get(n.rsplit(".", 1)[0], ["ERR"])[0] != "ERR"]
+        if parents_ok:
+            raise core.HarnessError(f"oracle cross-check: the oracle's walker yields {parents_ok} but the real one does not")
+    ctx.probe("oracle-crosschecked-against-real-import")
+
+
 def _stub_inspect(module_name, filepath=None, parent=None, lines_collection=None, modules_collection=None, **kwargs):
     """Stub for the inspector: a zero-byte extension/bytecode file cannot be imported; return an empty module."""
     import griffe
@@ -407,9 +486,14 @@ def execute(plan, ctx):
                         return
                 if seam.decisions:
                     ctx.nontrivial = True
+                    ctx.probe("directory-listings-with-a-choice-of-order", seam.decisions)
+                    ctx.probe("schedule-" + ld["schedule"].get("mode", "?"))
+                ctx.probe("request-form-" + form)
                 ctx.log("load", (li, repr(ld["schedule"]), form, outcome, seam.decisions, core.hash_key(tree)))
                 results.append((ld, form, outcome, tree))
             # oracle on the first successful load (all loads are then required to be equal to it)
+            if plan["cfg"].get("crosscheck_oracle"):
+                crosscheck_oracle(ctx, w, target, oracle_sps)
             first_ok = next((r for r in results if r[2] == "ok"), None)
             if first_ok is not None:
                 compare_with_cpython(ctx, w, first_ok[3], target, oracle_sps, plan["inspection"], world["dirs"])
